@@ -84,6 +84,10 @@ func seqEngine() {
 			continue
 		}
 		rng := run.Rand(i)
+		if i%6 == 5 {
+			run.Guard("C10/seq:panic", nil, func() { runTwo(i, rng) })
+			continue
+		}
 		c := &seqCase{Rule: genRule(rng), ReloadAt: -1}
 		cost1 := uint64(c.Rule.cost(1))
 		for k, m := 0, 30+rng.Intn(120); k < m; k++ {
@@ -119,6 +123,93 @@ func seqEngine() {
 			run.Sample(cc)
 		}
 		run.Guard("C10/seq:panic", c, func() { runSeq(i, c) })
+	}
+}
+
+// ---- two throttling rules on one resource: the request is paced by each rule in list order (it sleeps for the first
+// rule, then meets the second one at the later instant, where it may have to sleep again or is rejected - the first
+// rule's slot stays consumed)
+type twoCase struct {
+	A      ruleDesc `json:"rule_a"`
+	B      ruleDesc `json:"rule_b"`
+	Dts    []uint64 `json:"arrival_deltas_ns"`
+	FailAt int      `json:"fail_at,omitempty"`
+}
+
+func runTwo(idx int, rng *rand.Rand) {
+	c := &twoCase{A: genRule(rng), B: genRule(rng)}
+	c.A.MaxQ, c.B.MaxQ = vk.PickU32(rng, 0, 100, 500, 2000), vk.PickU32(rng, 0, 100, 500, 2000)
+	costA, costB := c.A.cost(1), c.B.cost(1)
+	for k, m := 0, 30+rng.Intn(60); k < m; k++ {
+		c.Dts = append(c.Dts, []uint64{0, 0, 1, uint64(costA), uint64(costB), uint64(costA) / 2, uint64(costB) / 2, uint64(costA + costB), 50 * uint64(costA+costB)}[rng.Intn(9)])
+	}
+	run.Begin(idx, c)
+	caseNo++
+	res := fmt.Sprintf("c10-two-%d", caseNo)
+	mk := func(id string, d ruleDesc) *flow.Rule {
+		return &flow.Rule{ID: id, Resource: res, TokenCalculateStrategy: flow.Direct, ControlBehavior: flow.Throttling, Threshold: d.Thr, MaxQueueingTimeMs: d.MaxQ, StatIntervalInMs: d.Interval}
+	}
+	flow.LoadRulesOfResource(res, []*flow.Rule{mk("A", c.A), mk("B", c.B)})
+	defer flow.ClearRulesOfResource(res)
+	clk.AddMs(3600 * 1000)
+	var lastA, lastB int64
+	step := func(last *int64, t, cost, maxQ int64) (wait int64, ok bool) {
+		exp := *last + cost
+		switch {
+		case exp <= t:
+			*last = t
+			return 0, true
+		case exp-t > maxQ:
+			return 0, false
+		}
+		*last = exp
+		return exp - t, true
+	}
+	sawW, sawR := false, false
+	for i, dt := range c.Dts {
+		clk.AddNs(dt)
+		now := int64(clk.Ns())
+		clk.TakeSleeps()
+		e, b := sentinel.Entry(res, sentinel.WithSlotChain(chain))
+		var sl int64
+		for _, s := range clk.TakeSleeps() {
+			sl += int64(s)
+		}
+		want, wantBy := int64(0), ""
+		if 1 > c.A.Thr {
+			wantBy = "A"
+		} else if wA, ok := step(&lastA, now, costA, int64(c.A.MaxQ)*1e6); !ok {
+			wantBy = "A"
+		} else if 1 > c.B.Thr {
+			want, wantBy = wA, "B"
+		} else if wB, ok := step(&lastB, now+wA, costB, int64(c.B.MaxQ)*1e6); !ok {
+			want, wantBy = wA, "B"
+		} else {
+			want = wA + wB
+		}
+		gotBy := ""
+		if b != nil {
+			if r, ok := b.TriggeredRule().(*flow.Rule); ok && r != nil {
+				gotBy = r.ID
+			} else {
+				gotBy = "?"
+			}
+			sawR = true
+		} else {
+			e.Exit()
+		}
+		if want > 0 {
+			sawW = true
+		}
+		if (gotBy == "") != (wantBy == "") || (gotBy != "" && gotBy != "?" && gotBy != wantBy) || sl != want {
+			c.FailAt = i
+			run.Violation("C10/seq:two-rules", fmt.Sprintf("arrival %d at t=%dns with rules A %+v and B %+v in that order: rejected by %q after sleeping %d ns; paced by A and then (at the later instant) by B the model rejects by %q after %d ns", i, now, c.A, c.B, gotBy, sl, wantBy, want), c)
+			return
+		}
+	}
+	run.Count("two_rule_arrivals", int64(len(c.Dts)))
+	if sawW && sawR {
+		run.Distinct(vk.Hash("two", c.A, c.B, c.Dts))
 	}
 }
 
